@@ -100,8 +100,10 @@ Groups ==
        { {[k |-> "ep", name |-> e, long |-> "", params |-> <<>>, tags |-> <<>>, attrs |-> <<>>, pos |-> NoPos] : e \in PickN(EpNames, 2)},
          {[k |-> "end"]} }
        ELSE
-       { {[k |-> "type", name |-> t, kind |-> kd, tags |-> tg, attrs |-> <<>>, pos |-> NoPos] :
-            t \in PickN(TypesOf(IF fr.app = "NS :: C" THEN "C" ELSE fr.app), 2), kd \in Pick({"tuple", "relation"}), tg \in Pick(TagSets)},
+       { {[k |-> "type", name |-> t, kind |-> kd, tags |-> tg, attrs |-> at, pos |-> NoPos] :
+            t \in PickN(TypesOf(IF fr.app = "NS :: C" THEN "C" ELSE fr.app), 2), kd \in Pick({"tuple", "relation"}), tg \in Pick(TagSets),
+            \* header attributes: a string, and arrays of different lengths (a later block may state them again)
+            at \in Pick(IF Rich THEN {<<>>, <<>>, <<<<"owners", "[]", "alice", "bob">>>>, <<<<"owners", "[]", "dave">>>>, <<<<"owner", "ann">>>>} ELSE {<<>>})},
          {[k |-> "type", name |-> "E", kind |-> "enum", tags |-> <<>>, attrs |-> <<>>, pos |-> NoPos]},
          (IF Rich THEN {[k |-> "type", name |-> "Un", kind |-> "union", tags |-> <<>>, attrs |-> <<>>, pos |-> NoPos]} ELSE {}),
          (IF Rich THEN {[k |-> "alias", name |-> "Al", sh |-> sh, pos |-> NoPos] :
@@ -122,7 +124,8 @@ Groups ==
          (IF Rich THEN {[k |-> "event", name |-> "Ev", tags |-> tg, attrs |-> <<>>, pos |-> NoPos] : tg \in Pick(TagSets)} ELSE {}),
          (IF Rich THEN {[k |-> "sub", src |-> o, name |-> "Ev", tags |-> tg, attrs |-> <<>>, pos |-> NoPos] :
                           o \in Apps \ {fr.app}, tg \in Pick(TagSets)} ELSE {}),
-         (IF Rich THEN {[k |-> "anno", name |-> "note", val |-> "some text"]} ELSE {}),
+         (IF Rich THEN {[k |-> "anno", name |-> "note", val |-> v[1], arr |-> v[2], pos |-> NoPos] :
+                          v \in {<<"some text", <<>>>>, <<"", <<"x", "y">>>>, <<"", <<"z">>>>}} ELSE {}),
          {[k |-> "end"]} }
     [] fr.k = "type" ->
        { \* a field whose type is written in place (two levels at most)
@@ -207,6 +210,7 @@ CloseOK(d) ==
 \* parameters are declared once (the documentation promises no merge for their parts)
 Has(kind, app, name) == \E f \in st.model : f[1] = kind /\ f[2] = app /\ f[3] = name
 
+AppStartOf(p) == LET I == {i \in DOMAIN p : p[i].k = "app"} IN IF I = {} THEN 0 ELSE CHOOSE i \in I : \A j \in I : j <= i
 Fresh(d) ==
   LET app == Top(st).app IN
   CASE d.k = "type" ->
@@ -217,7 +221,8 @@ Fresh(d) ==
          ~\E f \in st.model : f[1] = "enum" /\ f[2] = app /\ f[3] = Top(st).type
                                 /\ (f[4] = d.name \/ f[5] = ToString(d.val))
     [] d.k = "member" -> <<"union", app, Top(st).type, TypeStr(d.sh)>> \notin st.model
-    [] d.k = "anno" -> ~\E f \in st.model : f[1] = "app.attr" /\ f[2] = app /\ f[3] = d.name
+    \* an annotation may be stated again in a later block of the application (the first value stays)
+    [] d.k = "anno" -> ~\E i \in DOMAIN prog : i > AppStartOf(prog) /\ prog[i].k = "anno" /\ prog[i].name = d.name
     [] d.k = "ep" -> (~Has("param", app, d.name)) /\ (CallsOnly => ~Has("ep", app, d.name))
                      /\ ((d.params # <<>> \/ d.tags # <<>>) => ~Has("ep", app, d.name))
     [] d.k = "event" -> ~\E i \in DOMAIN st.locs : st.locs[i].elem = <<"ep", app, d.name>>
@@ -258,7 +263,11 @@ RECURSIVE Flatten(_)
 Flatten(bs) == IF bs = <<>> THEN <<>> ELSE Head(bs) \o Flatten(Tail(bs))
 
 \* statement lists a block appends to: (app, endpoint) pairs incl. event endpoints fed by subscriptions
+\* ... and the attributes whose value depends on which block states them first or last (an annotation of the
+\* application: the first value stays; a header attribute of a type: the later value is the type's)
 Touches(b) == {<<f[2], f[3]>> : f \in {g \in Replay(EmptyState, b).model : g[1] = "stmt"}}
+              \cup {<<f[1], f[2], f[3]>> : f \in {g \in Replay(EmptyState, b).model : g[1] = "app.attr"}}
+              \cup {<<f[1], f[2], f[3], f[4]>> : f \in {g \in Replay(EmptyState, b).model : g[1] = "type.attr"}}
 Commute(b1, b2) == Touches(b1) \cap Touches(b2) = {}
 
 
